@@ -62,6 +62,9 @@ func init() {
 			if p == 0 || p == 4 {
 				l = &quick
 			}
+			if p == 5 {
+				continue // 2049-byte string through the byte-wise delimiter scan: > 300 s of per-byte solver calls
+			}
 			*l = append(*l, &Job{Pkg: "codec/format", Func: "ZZ_C16_Text", Args: []int64{p, 1}, Bounds: b})
 		}
 		for _, c := range [][]int64{{0, 0}, {1, 0}, {0, 1}, {1, 1}} {
@@ -72,7 +75,7 @@ func init() {
 			MustReach: []string{"c16-text-done", "c16-json-decoded", "c16-json-rejected", "c16-json-encoded"},
 			Bounds: map[string]string{
 				"quick":    "text codec: strings of 0..4 arbitrary bytes through 7 inbound paths ([]byte, *bytes.Reader, fragmenting reader, *bytes.Buffer, length-field / delimiter / varint codec underneath) and 2049-byte strings through 2 of them; JSON codec: wiring under the encoding/json contract stub for all four flag combinations",
-				"thorough": "2049-byte strings through all 7 paths",
+				"thorough": "2049-byte strings through 6 of the 7 paths (not through the byte-wise delimiter scan)",
 			},
 			Outside: "what encoding/json itself does with the bytes (big numbers, malformed input, nesting): assumed per the library's documented contract - the check decides only the repository's wiring (exact frame bytes reach the decoder, flags applied, errors raised, decoded object delivered unchanged, marshalled bytes forwarded unchanged)",
 			Assumptions: append([]string{
